@@ -152,6 +152,21 @@ theorem C22_method_by_position_counterexample :
     methodByPosition ["sides", "area"] 0 = some 0 ∧ methodByName ["area", "sides"] ["sides", "area"] 0 = some 1 := by
   decide
 
+/-- An interface method used as a function value is dispatched exactly like a call of that method:
+    the same implementation (selected from the instantiated type of the value) and the method with
+    the same NAME — never the method that merely sits at the interface method's position. -/
+theorem C22_method_value_eq_call {ν : Type} [DecidableEq ν] (sig inst msig ty : Ty) (impls : List Ty)
+    (ifaceMethods implMethods : List ν) (idx : Nat) :
+    dispatchValue sig inst msig ty impls = dispatch sig inst msig ty impls ∧
+      methodOfValue ifaceMethods implMethods idx = methodByName ifaceMethods implMethods idx :=
+  ⟨rfl, rfl⟩
+
+/-- so `C22_method_by_name` also holds for method values -/
+theorem C22_method_value_by_name {ν : Type} [DecidableEq ν] (iface impl : List ν) (idx j : Nat)
+    (h : methodOfValue iface impl idx = some j) :
+    ∃ (hj : j < impl.length) (hi : idx < iface.length), impl[j] = iface[idx] :=
+  C22_method_by_name iface impl idx j h
+
 /-! ### operators -/
 
 /-- Every operator on a non-builtin operand type is lowered to a method that exists in its prelude
